@@ -18,7 +18,17 @@ structure WPipe where
   wire : Bytes := []
   credit : Option Nat := none
   wrerr : Bool := false
+  /-- the write error is TRANSIENT (`Interrupted`, `TimedOut` … once): the write that reports it clears it -/
+  once : Bool := false
 deriving Repr, DecidableEq
+
+/-- the pipe after a write has reported its error -/
+def WPipe.afterErr (p : WPipe) : WPipe := if p.once then { p with wrerr := false, once := false } else p
+
+@[simp] theorem WPipe.afterErr_wire (p : WPipe) : p.afterErr.wire = p.wire := by
+  unfold WPipe.afterErr; split <;> rfl
+@[simp] theorem WPipe.afterErr_credit (p : WPipe) : p.afterErr.credit = p.credit := by
+  unfold WPipe.afterErr; split <;> rfl
 
 inductive IoRes | done | pending | error
 deriving Repr, DecidableEq
@@ -27,7 +37,7 @@ deriving Repr, DecidableEq
 (the loop of `poll_flush`) -/
 def flushBuf (p : WPipe) (buf : Bytes) : WPipe × Bytes × IoRes :=
   if buf.isEmpty then (p, buf, .done)
-  else if p.wrerr then (p, buf, .error)
+  else if p.wrerr then (p.afterErr, buf, .error)
   else match p.credit with
     | none => ({ p with wire := p.wire ++ buf }, [], .done)
     | some c =>
@@ -38,7 +48,7 @@ def flushBuf (p : WPipe) (buf : Bytes) : WPipe × Bytes × IoRes :=
 /-- `poll_ready`: write while the buffer is at or above the high-water mark -/
 def pollReady (hwm : Nat) (p : WPipe) (buf : Bytes) : WPipe × Bytes × IoRes :=
   if buf.length < hwm then (p, buf, .done)
-  else if p.wrerr then (p, buf, .error)
+  else if p.wrerr then (p.afterErr, buf, .error)
   else match p.credit with
     | none => ({ p with wire := p.wire ++ buf }, [], .done)
     | some c =>
